@@ -6,7 +6,8 @@
     encoding (Ber/X690.v), [scope_enc] the decidable scope predicate of
     Ber/BerScope.v. *)
 From Asn1V Require Import Base.Prelude Syntax.Asn1 Ber.X690 Ber.BerScope Ber.DerImpl Ber.DerRefine
-     Ber.X690Canon Ber.DerCanon Ber.BerTrunc.
+     Ber.X690Canon Ber.DerCanon Ber.BerTrunc Ber.BerImpl Ber.X690Read Ber.BerAcceptBase Ber.BerAccept Ber.DerBer
+     Ber.DerAccept.
 
 (** Whenever X.690 defines the distinguished encoding [bs] of [v] (definite
     minimal lengths, minimal tag and integer octets, primitive strings, TRUE =
@@ -61,6 +62,42 @@ Proof.
   exact (conj A (conj B (conj C (conj D (conj E F))))).
 Qed.
 Print Assumptions C03_veq_nontrivial.
+
+(** The DER output is a BER encoding with the same meaning: it is the octets of
+    a well-formed BER tree that the X.690 reader reads as [norm v] (the value with
+    DEFAULTs filled in, fields in declaration order, named bits cleaned, SET OF
+    in encoding order) ... *)
+Theorem C03_der_is_ber :
+  forall numeric e fuel t v bs,
+    in_scope numeric e fuel t = true ->
+    X690.der_encode numeric e fuel t v = Some bs -> small bs ->
+    DerImpl.der_encode numeric fuel e t v = Ok bs /\
+    exists nv, norm numeric e fuel t v = Some nv /\ ber_sem_at numeric e fuel t bs nv.
+Proof. exact der_is_ber. Qed.
+Print Assumptions C03_der_is_ber.
+
+(** ... and the BER decoder model, given those octets followed by any tail,
+    returns exactly that normal form and stops behind them *)
+Theorem C03_der_ber_roundtrip :
+  forall numeric e fuel t v bs,
+    in_scope numeric e fuel t = true -> compiles e fuel t = true ->
+    X690.der_encode numeric e fuel t v = Some bs -> small bs ->
+    exists nv, norm numeric e fuel t v = Some nv /\
+               DerImpl.der_encode numeric fuel e t v = Ok bs /\
+               forall tail, BerImpl.ber_decode numeric fuel e t (bs ++ tail) = Ok (nv, length bs).
+Proof. exact der_ber_roundtrip. Qed.
+Print Assumptions C03_der_ber_roundtrip.
+
+(** round trip through the DER decoder classes of der.py (C01, DER) *)
+Theorem C03_der_roundtrip :
+  forall numeric e fuel t v bs,
+    in_scope numeric e fuel t = true -> compiles_der e fuel t = true ->
+    X690.der_encode numeric e fuel t v = Some bs -> small bs ->
+    exists nv, norm numeric e fuel t v = Some nv /\
+               DerImpl.der_encode numeric fuel e t v = Ok bs /\
+               forall tail, DerImpl.der_decode numeric fuel e t (bs ++ tail) = Ok (nv, length bs).
+Proof. exact der_roundtrip. Qed.
+Print Assumptions C03_der_roundtrip.
 
 (** every strict prefix of a DER encoder output is rejected with a decode error *)
 Theorem C03_der_truncation :
